@@ -206,15 +206,21 @@ def build(desc):
             u['host'] = cur
             cur += u['n']
         total = cur + (lrng.choice((0, 0, 1, 3)) if shuffle else 0)
-        need = _ceil_div(total, per_block)
+        # leak_to: every host cluster from the end of the image up to this cluster number is marked allocated (refcount 1)
+        # although nothing references it - a legal state (leaks are the permitted damage of a crash) that makes the next
+        # allocation land far out without the image holding that much data
+        leak_to = getattr(desc, 'leak_to', None) or 0
+        need = _ceil_div(max(total, leak_to), per_block)
         if need <= nblocks:
             break
         nblocks = need
 
     # ---- emit --------------------------------------------------------------
     img = bytearray(total * cs)
-    rc = [0] * total
+    rc = [0] * max(total, leak_to)
     rc[0] = 1
+    for c in range(total, leak_to):
+        rc[c] = 1
     for u in order:
         if u['kind'] == 'comp':
             for c, k in u['touch'].items():
